@@ -86,7 +86,7 @@ def build(case, sequential):
 
 class Equivalence(Part):
     name = "equivalence"
-    budget = {"quick": 400, "thorough": 6000}
+    budget = {"quick": 400, "thorough": 20000}
     max_shards = 8
     min_per_shard = 6
 
